@@ -1,4 +1,322 @@
+//! Reader-cache semantics (C18..C25): model-based monitoring through the public async API in the
+//! simulation. `scen_rc <c18..c25> --seed S --shard i --nshards n --cases N --tier T --out F [--replay F]`
 #[path = "../../scen/src/common.rs"]
 mod common;
+mod hist;
+mod model;
+mod own;
+mod run;
+mod wlim;
 
-fn main() {}
+use common::Shard;
+use hist::*;
+use run::Outcome;
+use simnet::*;
+use std::collections::BTreeSet;
+use vcore::{Args, Json, Report, Rng};
+
+fn policy_of(p: u8) -> Policy {
+    match p {
+        0 => Policy::Fifo,
+        1 => Policy::Random,
+        _ => Policy::Lifo,
+    }
+}
+
+/// One world per history. Deterministic function of the history.
+fn execute(h: &Hist, trace: bool, max_polls: u64) -> (Option<Outcome>, RunStats) {
+    let mut cfg = WorldConfig::default();
+    cfg.sim.seed = vcore::mix(vcore::fnv_str(&h.cfg.class()), h.cfg.policy as u64 + 17);
+    cfg.sim.policy = policy_of(h.cfg.policy);
+    cfg.sim.clock_tick = h.cfg.clock_tick;
+    cfg.sim.jitter_max = h.cfg.jitter;
+    cfg.sim.max_polls = max_polls;
+    let h2 = h.clone();
+    let (res, stats, _net) = run_world(&cfg, move |w| async move {
+        match h2.cfg.prop.as_str() {
+            "C24" => own::scenario(w, h2, trace).await,
+            "C19W" | "C19WL" => wlim::scenario(w, h2, trace).await,
+            _ => run::scenario(w, h2, trace).await,
+        }
+    });
+    (res, stats)
+}
+
+fn sigs_of(h: &Hist, max_polls: u64) -> BTreeSet<String> {
+    let (out, stats) = execute(h, false, max_polls);
+    let mut s: BTreeSet<String> = BTreeSet::new();
+    if let Some(o) = out {
+        for f in o.findings {
+            s.insert(f.sig);
+        }
+    }
+    for p in &stats.panics {
+        if matches!(p.task, TaskKind::Worker | TaskKind::Listener) {
+            s.insert(format!("panic|{}|{}", p.sym, vcore::normalize_msg(&p.msg)));
+        }
+    }
+    s
+}
+
+/// Delta debugging (ddmin) on the operation list, then a few configuration simplifications.
+fn shrink(h: &Hist, sig: &str, max_polls: u64, budget: usize) -> (Hist, usize) {
+    let mut cur = h.clone();
+    let mut runs = 0usize;
+    let mut test = |cand: &Hist, runs: &mut usize| -> bool {
+        *runs += 1;
+        sigs_of(cand, max_polls).contains(sig)
+    };
+    let mut n = 2usize;
+    while cur.ops.len() >= 2 && runs < budget {
+        let len = cur.ops.len();
+        let chunk = len.div_ceil(n);
+        let mut reduced = false;
+        let mut start = 0;
+        while start < len && runs < budget {
+            let end = (start + chunk).min(len);
+            let mut cand = cur.clone();
+            cand.ops.drain(start..end);
+            if !cand.ops.is_empty() && test(&cand, &mut runs) {
+                cur = cand;
+                n = (n - 1).max(2);
+                reduced = true;
+                break;
+            }
+            start = end;
+        }
+        if !reduced {
+            if n >= len {
+                break;
+            }
+            n = (2 * n).min(len);
+        }
+    }
+    // single removals once more (ddmin granularity 1 may have been cut by the budget)
+    let mut i = 0;
+    while i < cur.ops.len() && cur.ops.len() > 1 && runs < budget {
+        let mut cand = cur.clone();
+        cand.ops.remove(i);
+        if test(&cand, &mut runs) {
+            cur = cand;
+        } else {
+            i += 1;
+        }
+    }
+    // configuration: quiet scheduling, fewer writers
+    for step in 0..4 {
+        if runs >= budget {
+            break;
+        }
+        let mut cand = cur.clone();
+        match step {
+            0 => {
+                cand.cfg.policy = 0;
+                cand.cfg.clock_tick = 0;
+                cand.cfg.jitter = 0;
+            }
+            1 => {
+                let used = cand
+                    .ops
+                    .iter()
+                    .filter_map(|o| match o {
+                        Op::Write { w, .. } | Op::Dispose { w, .. } | Op::Unreg { w, .. } | Op::DeleteWriter { w } => Some(*w),
+                        _ => None,
+                    })
+                    .max()
+                    .unwrap_or(0);
+                if used + 1 < cand.cfg.n_writers {
+                    cand.cfg.n_writers = used + 1;
+                } else {
+                    continue;
+                }
+            }
+            2 => {
+                if cand.cfg.max_instances.is_some() && cand.cfg.prop != "C19" && !cand.cfg.prop.starts_with("C19W") {
+                    cand.cfg.max_instances = None;
+                } else {
+                    continue;
+                }
+            }
+            _ => {
+                if cand.cfg.max_samples.is_some() && cand.cfg.prop == "C18" {
+                    cand.cfg.max_samples = None;
+                } else {
+                    continue;
+                }
+            }
+        }
+        if cand.cfg != cur.cfg && test(&cand, &mut runs) {
+            cur = cand;
+        }
+    }
+    (cur, runs)
+}
+
+fn outcome_json(o: &Outcome) -> Json {
+    let mut st = Json::obj();
+    for (k, v) in &o.stats {
+        st.put(k, *v);
+    }
+    Json::obj()
+        .set("findings", o.findings.iter().map(|f| Json::obj().set("sig", f.sig.clone()).set("what", f.what.clone()).set("op_index", f.op_index)).collect::<Vec<_>>())
+        .set("abandoned_without_verdict", o.abandoned.clone())
+        .set("stats", st)
+}
+
+struct Driver<'a> {
+    shard: &'a Shard,
+    rep: Report,
+    prop: String,
+    max_polls: u64,
+    shrunk: BTreeSet<String>,
+}
+
+impl<'a> Driver<'a> {
+    fn run_history(&mut self, h: &Hist, case: u64, replaying: bool) {
+        let trace_flag = self.shard.args.has("trace");
+        let (out, stats) = execute(h, trace_flag, self.max_polls);
+        self.rep.eval();
+        self.rep.stat("worker_polls", stats.worker_polls as i128);
+        self.rep.maxstat("max_virtual_ms", ((stats.end_ns - EPOCH_NS) / MS) as i128);
+        let base = self.shard.base_replay(&format!("scen_rc/{}", h.cfg.prop), case);
+        // ---- panics
+        let mut dds_panic = false;
+        for p in &stats.panics {
+            match p.task {
+                TaskKind::Worker | TaskKind::Listener => {
+                    dds_panic = true;
+                    let sig = format!("panic|{}|{}", p.sym, vcore::normalize_msg(&p.msg));
+                    let what = format!("DDS {:?} task panicked at {}: {}", p.task, p.location, p.msg);
+                    self.report(h, &sig, &what, h.ops.len(), &base, replaying);
+                }
+                TaskKind::Local => {
+                    // a panic inside a dust-dds API call made by the scenario is judged by the
+                    // scenario itself (status getter probe); anything else is a harness problem
+                    if !p.location.contains("/dds/src/") {
+                        self.rep.inconclusive(format!("case {case}: harness task panicked at {}: {}", p.location, p.msg));
+                    }
+                }
+            }
+        }
+        let Some(o) = out else {
+            if !dds_panic {
+                self.rep.inconclusive(format!("case {case}: scenario did not finish ({:?})", stats.stop));
+            }
+            return;
+        };
+        if trace_flag {
+            eprintln!("case {case}: {}", h.cfg.to_json().to_string());
+            for l in &o.trace {
+                eprintln!("  {l}");
+            }
+            eprintln!("  => findings {:?} abandoned {:?} inconclusive {:?}", o.findings.iter().map(|f| &f.sig).collect::<Vec<_>>(), o.abandoned, o.inconclusive);
+        }
+        if let Some(why) = &o.inconclusive {
+            if !dds_panic {
+                self.rep.inconclusive(format!("case {case}: {why}"));
+            }
+            return;
+        }
+        for (k, v) in &o.stats {
+            self.rep.stat(k, *v as i128);
+        }
+        self.rep.stat("ops_executed", o.ops_executed as i128);
+        self.rep.stat("model_states_visited(sum over histories)", o.states.len() as i128);
+        self.rep.maxstat("max_ops_in_a_history", h.ops.len() as i128);
+        if o.abandoned.is_some() {
+            self.rep.stat("histories_abandoned_without_verdict", 1);
+        }
+        self.rep.set("history", match h.cfg.depth {
+            None => "KEEP_ALL".to_string(),
+            Some(d) => format!("KEEP_LAST({d})"),
+        });
+        if o.nontrivial {
+            let mut hsh = o.shape;
+            for s in &o.states {
+                hsh = vcore::mix(hsh, *s);
+            }
+            self.rep.nontrivial(hsh);
+            self.rep.stat("histories_nontrivial", 1);
+        }
+        if case / self.shard.nshards < 2 && !replaying {
+            self.rep.sample(Json::obj().set("case", case).set("history", h.to_json()).set("outcome", outcome_json(&o)));
+        }
+        for f in &o.findings {
+            self.report(h, &f.sig, &f.what, f.op_index, &base, replaying);
+        }
+    }
+
+    fn report(&mut self, h: &Hist, sig: &str, what: &str, op_index: usize, base: &Json, replaying: bool) {
+        let mut replay = base.clone();
+        let no_shrink = self.shard.args.has("no-shrink") || replaying;
+        if !self.shrunk.contains(sig) && !no_shrink {
+            self.shrunk.insert(sig.to_string());
+            let budget = self.shard.args.u64("shrink-budget", 300) as usize;
+            let (small, runs) = shrink(h, sig, self.max_polls, budget);
+            let (o2, _) = execute(&small, true, self.max_polls);
+            let mut what2 = what.to_string();
+            let mut trace = Vec::new();
+            if let Some(o2) = o2 {
+                if let Some(f) = o2.findings.iter().find(|f| f.sig == sig) {
+                    what2 = f.what.clone();
+                }
+                trace = o2.trace;
+            }
+            self.rep.stat("shrink_runs", runs as i128);
+            replay = replay
+                .set("history", small.to_json())
+                .set("shrunk_from_ops", h.ops.len())
+                .set("shrink_runs", runs)
+                .set("observed_trace", trace);
+            self.rep.violation(sig.to_string(), what2, replay);
+        } else {
+            replay = replay.set("history", h.to_json()).set("failing_op_index", op_index).set("shrunk", false);
+            self.rep.violation(sig.to_string(), what.to_string(), replay);
+        }
+    }
+}
+
+fn main() {
+    let args = Args::parse();
+    let sub = args.pos.first().cloned().unwrap_or_default();
+    let prop = sub.to_uppercase();
+    if !["C18", "C19", "C20", "C21", "C22", "C23", "C24", "C25"].contains(&prop.as_str()) {
+        eprintln!("unknown subcommand {sub}");
+        std::process::exit(3);
+    }
+    let shard = Shard::from_args(args);
+    let thorough = shard.tier == "thorough";
+    let mut d = Driver {
+        shard: &shard,
+        rep: Report::new(&prop),
+        prop: prop.clone(),
+        max_polls: shard.args.u64("max-polls", 3_000_000),
+        shrunk: BTreeSet::new(),
+    };
+    if let Some(r) = &shard.replay {
+        // re-run the witnesses' (shrunk) histories
+        let mut n = 0u64;
+        if let Some(ws) = r.get("witnesses").and_then(|w| w.as_arr()) {
+            for w in ws {
+                let Some(hj) = w.get("replay").and_then(|r| r.get("history")) else { continue };
+                let Some(h) = Hist::from_json(hj) else {
+                    d.rep.inconclusive("replay file: cannot parse history".to_string());
+                    continue;
+                };
+                let case = w.get("replay").and_then(|r| r.get("case")).and_then(|c| c.as_u64()).unwrap_or(n);
+                d.run_history(&h, case, true);
+                n += 1;
+            }
+        }
+        if n == 0 {
+            d.rep.inconclusive("replay file has no witness with a history".to_string());
+        }
+    } else {
+        for case in shard.my_cases() {
+            let mut rng = Rng::new(shard.case_seed(case));
+            let h = if d.prop == "C19" && case % 5 == 4 { wlim::generate(&mut rng, thorough) } else { generate(&d.prop, &mut rng, thorough) };
+            d.run_history(&h, case, false);
+        }
+    }
+    d.rep.write(&shard.out);
+}
